@@ -41,6 +41,11 @@ def Tomb.covers (tb : Tomb) (k : Key) (t : Int) : Bool := covered tb.series tb.l
 structure TsmFile where
   data : Log
   tombs : List Tomb := []
+  /-- the generation in the file name `<generation>-<sequence>.tsm`.  Only equality matters: two
+      files share a generation exactly when a crash inside FileStore.replace left the output of a
+      compaction (max generation of its group, sequence+1) next to not-yet-removed members of
+      the group; the planner always takes whole generations. -/
+  gen : Nat := 0
 deriving Repr, DecidableEq
 
 /-- what a reader sees of a file: data minus tombstoned ranges (file_store.gen.go / reader.go) -/
@@ -79,6 +84,8 @@ structure State where
   /-- the current segment (`WAL.currentSegmentWriter`), if any -/
   walCur : Option Segment := none
   nextSeg : Nat := 1
+  /-- `FileStore.NextGeneration` -/
+  nextGen : Nat := 1
   /-- the previous op appended a WAL record (the one a torn crash may lose) -/
   lastRec : Bool := false
 deriving Repr
@@ -245,7 +252,8 @@ def stepSnapStep (s : State) : State :=
   | .idle => s
   | .begun =>
     if s.snap.isEmpty then { s with phase := .idle, snapClosed := [], lastRec := false }
-    else { s with phase := .written, snapTmp := some ⟨s.snap.canon, []⟩, lastRec := false }
+    else { s with phase := .written, snapTmp := some ⟨s.snap.canon, [], s.nextGen⟩, nextGen := s.nextGen + 1,
+                  lastRec := false }
   | .written =>
     { s with phase := .replaced, files := s.files ++ s.snapTmp.toList, snapTmp := none, lastRec := false }
   | .replaced => { s with phase := .cleared, snap := [], lastRec := false }
@@ -274,9 +282,11 @@ def stepSnapTo (s : State) (p : Phase) : State :=
   advance1 p.target (advance1 p.target (advance1 p.target (advance1 p.target s)))
 
 /-- the output of compacting a group: nothing when every point is tombstoned -/
+def lastGen (grp : List TsmFile) : Nat := (grp.getLast?.map (·.gen)).getD 0
+
 def compactOut (grp : List TsmFile) : List TsmFile :=
   let merged := (filesLog grp).canon
-  if merged.isEmpty then [] else [⟨merged, []⟩]
+  if merged.isEmpty then [] else [⟨merged, [], lastGen grp⟩]
 
 def groupOf (fs : List TsmFile) (i j : Nat) : List TsmFile := (fs.drop i).take (j + 1 - i)
 
@@ -290,7 +300,12 @@ def compactSetFiles (fs : List TsmFile) (idxs : List Nat) : List TsmFile :=
   let last := idxs.foldl max 0
   en.flatMap fun p => if p.2 = last then compactOut grp else if idxs.contains p.2 then [] else [p.1]
 
-def validGroup (fs : List TsmFile) (i j : Nat) : Bool := decide (i ≤ j) && decide (j < fs.length)
+/-- positions `i..j` exist and the group consists of whole generations (what the planner plans:
+    `tsmGeneration`s; splitting one would make the output's name collide with a live file) -/
+def validGroup (fs : List TsmFile) (i j : Nat) : Bool :=
+  decide (i ≤ j) && decide (j < fs.length) &&
+  (i == 0 || (fs[i - 1]?.map (·.gen)) != (fs[i]?.map (·.gen))) &&
+  ((fs[j + 1]?.map (·.gen)) != (fs[j]?.map (·.gen)))
 
 /-- `Engine.Open` on the durable image of `s`, the WAL segment files being `segs`:
     WAL.Open (an empty last segment is removed; otherwise the last segment becomes the current
@@ -298,7 +313,8 @@ def validGroup (fs : List TsmFile) (i j : Nat) : Bool := decide (i ≤ j) && dec
 def openWith (s : State) (fs : List TsmFile) (segs : List Segment) : State :=
   let segs' := segs.filter fun g => !g.recs.isEmpty
   { hot := replay segs', snap := [], phase := .idle, snapTmp := none, snapClosed := [],
-    files := fs, walClosed := segs'.dropLast, walCur := segs'.getLast?, nextSeg := s.nextSeg, lastRec := false }
+    files := fs, walClosed := segs'.dropLast, walCur := segs'.getLast?, nextSeg := s.nextSeg,
+    nextGen := s.nextGen, lastRec := false }
 
 def stepCrash (s : State) (tear : Bool) : State :=
   openWith s s.files (s.walClosed ++ (if tear && s.lastRec then dropLastRec s.walCur else s.walCur).toList)
